@@ -85,8 +85,18 @@ def _small_model(ctx, neg):
     return None
 
 
+def load_factor():
+    """solver budgets are wall-clock: on an oversubscribed machine (several checks at once) they are stretched by the load per
+    core, so that a provable obligation does not turn into an alarm because the solver got a fraction of a core"""
+    try:
+        return max(1.0, min(6.0, os.getloadavg()[0] / (os.cpu_count() or 1)))
+    except OSError:
+        return 1.0
+
+
 def discharge(ctx, name, clause, kind="check", detail=""):
     t0 = time.time()
+    lf = load_factor()
     neg = z3.Not(clause)
     s = ctx.solver
     # after two obligations of this path could not be proved within the budgets, the remaining ones get the short budgets
@@ -97,7 +107,7 @@ def discharge(ctx, name, clause, kind="check", detail=""):
 
     def z3_try(timeout_ms):
         s.push()
-        s.set("timeout", timeout_ms)
+        s.set("timeout", int(timeout_ms * lf))
         s.add(neg)
         r_ = s.check()
         m_ = s.model() if r_ == z3.sat else None
@@ -131,14 +141,17 @@ def discharge(ctx, name, clause, kind="check", detail=""):
     #  (b) cvc5 on the full query may still prove it (then the candidate was an artefact of the weakening),
     #  (c) z3 once more with the long budget.
     cand = stage2(ctx, neg)
-    st, cms = cvc5_check(smt2, timeout_s=6 if tired else (20 if (fast or cand is not None) else 60))
+    st, cms = cvc5_check(smt2, timeout_s=int((6 if tired else (20 if (fast or cand is not None) else 60)) * lf))
     if st == "unsat":
         return core.Obligation(name, "discharged", ms + cms, "cvc5", path=path, kind=kind,
                                detail=(detail + f" z3:unknown({reason})").strip())
     if cand is not None:
         # the candidate comes from a weakened (ground-instantiated) query: before it is reported, z3 gets a second, longer
         # attempt on the full query so that a busy machine cannot turn a provable obligation into an alarm
-        r3, model3 = (z3.unknown, None) if fast else z3_try(30_000)[:2]
+        r3, model3, reason3 = (z3.unknown, None, "skipped") if fast else z3_try(30_000)[:3]
+        if os.environ.get("VERIF_LOG_REASONS"):
+            with open(os.environ["VERIF_LOG_REASONS"], "a") as fh:
+                fh.write(f"{name}\t{r3}\tfirst={reason!r}\tsecond={reason3!r}\tms={(time.time() - t0) * 1000:.0f}\n")
         if r3 == z3.unsat:
             return core.Obligation(name, "discharged", (time.time() - t0) * 1000, "z3", path=path, kind=kind,
                                    detail=(detail + " (second attempt)").strip())
